@@ -1,5 +1,5 @@
 #!/bin/bash
-# stage_build.sh <variant>...   (variants: rel san tsan)
+# stage_build.sh <variant>...   (variants: rel san tsan sch)
 # Copies /repo's working-tree sources (content comparison, so the current tree is always what is
 # built) into /verif/build/stage and builds libwb.a, the apps and the checker binaries of each
 # requested variant incrementally with -DGWB_VERIF. Serialised by a lock; nothing lives in /tmp.
